@@ -26,7 +26,13 @@ Definition removed (w : world) (h sub : id) (w' : world) : Prop :=
     (forall j nj, reach T w sub j -> w_nodes w j = Some nj -> w_nodes w' j = Some (wipe nj)) /\
     w_models w' = list_set (w_models w) (N.to_nat m) (apply_plan x K R) /\
     (forall k, In k K <-> exists j q, dpath T w sub j q /\ identifiable T w j = true /\ k = pp ++ seg T w sub ++ q) /\
-    (forall p j, In (p, j) R <-> reach T w sub j /\ ref_text T w j = Some p).
+    (forall p j, In (p, j) R <-> reach T w sub j /\ ref_text T w j = Some p) /\
+    w_next w' = w_next w.
+
+(* no element of a named type has a SHORT-NAME element at a position other than the first (Index.late_short, as a Prop) *)
+Definition NoLate (w : world) : Prop :=
+  forall i n k s sn, w_nodes w i = Some n -> named T (n_type n) = true ->
+    nth_error (n_content n) (S k) = Some (CElem s) -> w_nodes w s = Some sn -> n_name sn <> SHORTN.
 
 Lemma index_of_citem sub l pos : index_of (citem_is sub) l = Some pos -> In (CElem sub) l.
 Proof.
@@ -64,7 +70,7 @@ Proof.
   { intros j Hj Hnbj. cbn. rewrite upd_neq by exact Hj. apply Fr1. exact Hnbj. }
   split.
   { intros j nj Hb Hnj. cbn. assert (j <> h) by (intros ->; contradiction). rewrite upd_neq by assumption. eapply Wi1; eauto. }
-  split; [exact M1|]. split; [exact KS|exact RS].
+  split; [exact M1|]. split; [exact KS|]. split; [exact RS|]. cbn. exact N1.
 Qed.
 
 (* ---------- lists *)
@@ -499,6 +505,113 @@ Proof.
     + rewrite (model_at_set_other _ _ _ _ _ Hmodels Hne) in Hy. apply (IT m2 y Hy).
 Qed.
 
+(* ---------- the tree facts and the late-SHORT-NAME side condition after the removal *)
+Hypothesis Hnext : w_next w' = w_next w.
+
+Lemma D_alloc j : D j -> exists nj, w_nodes w j = Some nj.
+Proof.
+  intros (q & Hd). destruct (dpath_last T _ _ _ _ Hd) as [->|(p & Hc & _)].
+  - destruct (tf_up _ HF _ _ rem_child) as (sn & Hsn & _). eauto.
+  - destruct (tf_up _ HF _ _ Hc) as (cn & Hcn & _). eauto.
+Qed.
+
+Lemma rem_node_cases j n' : w_nodes w' j = Some n' ->
+  (j = h /\ n' = set_content n (remove_at (n_content n) pos)) \/
+  (D j /\ exists nj, w_nodes w j = Some nj /\ n' = wipe nj) \/
+  (j <> h /\ ~ D j /\ w_nodes w j = Some n').
+Proof.
+  intros Hj. destruct (N.eq_dec j h) as [->|Hne]; [left; split; [reflexivity|congruence]|].
+  destruct (rem_dec j) as [Hd|Hnd].
+  - right. left. split; [exact Hd|]. destruct (D_alloc j Hd) as (nj & Hnj). exists nj. split; [exact Hnj|].
+    rewrite (Hin j nj Hd Hnj) in Hj. congruence.
+  - right. right. rewrite (Hout j Hne Hnd) in Hj. auto.
+Qed.
+
+Lemma h_ne_sub : h <> sub.
+Proof. intros E. apply rem_h_notD. rewrite E. apply reach_refl. Qed.
+
+Lemma rem_same_parent j nj : w_nodes w j = Some nj -> ~ D j -> exists nj', w_nodes w' j = Some nj' /\ n_parent nj' = n_parent nj.
+Proof.
+  intros Hj Hnd. destruct (N.eq_dec j h) as [->|Hne].
+  - rewrite Hn in Hj. injection Hj as <-. eexists. split; [exact Hh'|reflexivity].
+  - exists nj. split; [apply rem_node_out; assumption|reflexivity].
+Qed.
+
+Lemma remove_at_split (l1 l2 : list citem) it : remove_at (l1 ++ it :: l2) (List.length l1) = l1 ++ l2.
+Proof. induction l1 as [|y l1 IH]; cbn; [reflexivity|]. f_equal. exact IH. Qed.
+
+Lemma rem_pdepth i k : pdepth w i k -> ~ D i -> pdepth w' i k.
+Proof.
+  induction 1 as [i ni Hni Ht|i ni p k Hni Hp Hd IH]; intros Hnd.
+  - destruct (rem_same_parent i ni Hni Hnd) as (ni' & Hni' & Hpar). eapply pd_top; [exact Hni'|]. rewrite Hpar. exact Ht.
+  - destruct (rem_same_parent i ni Hni Hnd) as (ni' & Hni' & Hpar). eapply pd_step; [exact Hni'|rewrite Hpar; exact Hp|].
+    apply IH. intros Hdp. apply Hnd. apply (D_child p i); [eapply tf_down; eauto|right; exact Hdp].
+Qed.
+
+Theorem removed_treefacts : TreeFacts w'.
+Proof.
+  constructor.
+  - intros p c Hc. apply rem_child_of in Hc as (Hc & Hnp & Hne). destruct (tf_up _ HF _ _ Hc) as (cn & Hcn & Hpar).
+    assert (Hcd : ~ D c).
+    { apply (kid_notD p c Hc Hnp). intros ->. apply Hne. split; [|reflexivity]. eapply parent_unique; eauto. apply rem_child. }
+    destruct (rem_same_parent c cn Hcn Hcd) as (cn' & Hcn' & Hp'). exists cn'. split; [exact Hcn'|congruence].
+  - intros p n' Hp. destruct (rem_node_cases p n' Hp) as [(-> & ->)|[(_ & nj & _ & ->)|(_ & _ & Hw)]].
+    + cbn [set_content n_content]. pose proof rem_nodup as Hnd.
+      apply index_of_split in Hidx as (l1 & y & l2 & El & El1 & _ & _). rewrite El in *. rewrite <- El1, remove_at_split.
+      unfold elem_ids in *. rewrite flat_map_app in *. cbn [flat_map] in Hnd.
+      destruct y as [c0|d0]; cbn in Hnd; [apply NoDup_remove_1 in Hnd; exact Hnd|exact Hnd].
+    + cbn. constructor.
+    + eapply tf_nodup; eauto.
+  - intros c cn' p Hc Hpar. destruct (rem_node_cases c cn' Hc) as [(-> & ->)|[(_ & nj & _ & ->)|(Hne & Hnd & Hw)]].
+    + cbn [set_content n_parent] in Hpar. pose proof (tf_down _ HF _ _ _ Hn Hpar) as Hch.
+      apply rem_child_of. split; [exact Hch|]. split.
+      * intros Hdp. apply rem_h_notD. apply (D_child p h Hch). right. exact Hdp.
+      * intros (_ & E). apply h_ne_sub. exact E.
+    + cbn in Hpar. discriminate.
+    + pose proof (tf_down _ HF _ _ _ Hw Hpar) as Hch. apply rem_child_of. split; [exact Hch|]. split.
+      * intros Hdp. apply Hnd. apply (D_child p c Hch). right. exact Hdp.
+      * intros (_ & ->). apply Hnd. apply reach_refl.
+  - intros m2 x2' Hx2'. destruct (rem_model m2) as (y & [(_ & E2)|(x2 & E1 & E2 & Er & _)]); [congruence|].
+    rewrite E2 in Hx2'. injection Hx2' as <-. destruct (tf_roots _ HF _ _ E1) as (nr & Hnr & Hpar).
+    destruct (rem_same_parent _ nr Hnr (root_notD m2 x2 E1)) as (nr' & Hnr' & Hp'). exists nr'. rewrite Er. split; [exact Hnr'|congruence].
+  - intros i n' m2 Hi Hpar.
+    assert (Hw : exists ni, w_nodes w i = Some ni /\ n_parent ni = PModel m2).
+    { destruct (rem_node_cases i n' Hi) as [(-> & ->)|[(_ & nj & _ & ->)|(_ & _ & Hw)]]; [exists n; auto|cbn in Hpar; discriminate|eauto]. }
+    destruct Hw as (ni & Hni & Hpi). destruct (tf_pmodel _ HF i ni m2 Hni Hpi) as (x2 & Hx2 & Hr).
+    destruct (rem_model m2) as (y & [(E1 & _)|(x2b & E1 & E2 & Er & _)]); [congruence|].
+    rewrite Hx2 in E1. injection E1 as <-. exists y. split; [exact E2|congruence].
+  - intros i n' Hi. destruct (rem_node_cases i n' Hi) as [(-> & ->)|[(_ & nj & _ & ->)|(Hne & Hnd & Hw)]].
+    + destruct (tf_depth _ HF _ _ Hn) as (k & Hk). exists k. apply rem_pdepth; [exact Hk|apply rem_h_notD].
+    + exists O. eapply pd_top; [exact Hi|]. cbn. discriminate.
+    + destruct (tf_depth _ HF _ _ Hw) as (k & Hk). exists k. apply rem_pdepth; assumption.
+  - intros i n' Hi. rewrite Hnext.
+    destruct (rem_node_cases i n' Hi) as [(-> & ->)|[(_ & nj & Hnj & ->)|(_ & _ & Hw)]]; eapply tf_alloc; eauto.
+Qed.
+
+Lemma nth_error_remove_at {A} (l : list A) p k it :
+  nth_error (remove_at l p) k = Some it -> exists k', nth_error l k' = Some it /\ (k <= k')%nat.
+Proof.
+  revert p k. induction l as [|y l IH]; intros p k H; [destruct p; cbn in H; destruct k; discriminate|].
+  destruct p as [|p]; cbn in H.
+  - exists (S k). split; [exact H|auto].
+  - destruct k as [|k]; cbn in H.
+    + injection H as ->. exists O. split; [reflexivity|auto].
+    + apply IH in H as (k' & H & Hle). exists (S k'). split; [exact H|]. apply le_n_S. exact Hle.
+Qed.
+
+Theorem removed_nolate : NoLate w -> NoLate w'.
+Proof.
+  intros HL i n' k s sn' Hi Hnm Hk Hs.
+  assert (Hsn : exists sn, w_nodes w s = Some sn /\ n_name sn = n_name sn').
+  { destruct (rem_node_cases s sn' Hs) as [(-> & ->)|[(_ & nj & Hnj & ->)|(_ & _ & Hw)]]; [exists n; auto|exists nj; auto|eauto]. }
+  destruct Hsn as (sn & Hsn & <-).
+  destruct (rem_node_cases i n' Hi) as [(-> & ->)|[(_ & nj & _ & ->)|(_ & _ & Hw)]].
+  - cbn [set_content n_content n_type] in *. apply nth_error_remove_at in Hk as (k' & Hk' & Hle).
+    destruct k' as [|k']; [inversion Hle|]. eapply (HL h n k'); eauto.
+  - cbn in Hk. discriminate.
+  - eapply (HL i n' k); eauto.
+Qed.
+
 End Rem.
 
 (* ---------- the operations *)
@@ -517,7 +630,7 @@ Lemma removed_known_inv04 w h sub w' is_sub :
   TreeFacts w -> Inv04 w -> remove_front T w h is_sub = false -> is_sub sub = true ->
   removed w h sub w' -> Inv04 w'.
 Proof.
-  intros HF HI Hf Hs (n & pos & m & x & pp & K & R & Hn & Hidx & Hr & Hpp & Hx & Hsh & Hh' & Hout & Hin & Hm & HK & HR).
+  intros HF HI Hf Hs (n & pos & m & x & pp & K & R & Hn & Hidx & Hr & Hpp & Hx & Hsh & Hh' & Hout & Hin & Hm & HK & HR & Hnx).
   eapply (removed_inv04 w w' h sub n pos m x pp K R); eauto.
   eapply remove_front_false; eauto.
 Qed.
@@ -526,7 +639,7 @@ Lemma removed_known_inv05 w h sub w' is_sub :
   TreeFacts w -> Inv04 w -> Inv05 T w -> remove_front T w h is_sub = false -> is_sub sub = true ->
   removed w h sub w' -> Inv05 T w'.
 Proof.
-  intros HF HI HI5 Hf Hs (n & pos & m & x & pp & K & R & Hn & Hidx & Hr & Hpp & Hx & Hsh & Hh' & Hout & Hin & Hm & HK & HR).
+  intros HF HI HI5 Hf Hs (n & pos & m & x & pp & K & R & Hn & Hidx & Hr & Hpp & Hx & Hsh & Hh' & Hout & Hin & Hm & HK & HR & Hnx).
   eapply removed_inv05 with (h := h) (sub := sub) (n := n) (pos := pos) (m := m) (x := x) (R := R); eauto.
   eapply remove_front_false; eauto.
 Qed.
